@@ -43,7 +43,7 @@ func init() {
 		},
 		Run: runC15,
 		Min: func(t core.Tier) map[string]int64 {
-			return map[string]int64{"digest_comparisons": 1500, "fresh_process_runs": 60, "checksum_pairs_equal": 300, "checksum_pairs_differ": 600}
+			return map[string]int64{"digest_comparisons": 1500, "fresh_process_runs": 60, "checksum_pairs_equal": 200, "checksum_pairs_differ": 400}
 		},
 	})
 }
